@@ -166,6 +166,9 @@ func (e *Exec) evalBool(expr string, env *SpecEnv) *Term {
 
 func (e *Exec) evalSpec(expr string, env *SpecEnv) *Value {
 	env.e = e
+	if env.fn != nil {
+		expr = expandMacros(e.W.Contracts[shortName(env.fn)], expr)
+	}
 	return env.eval(parseSpec(expr))
 }
 
